@@ -130,12 +130,18 @@ class Cart:
             return self.gff.reset_flags(op['id'], op['fl'])
         if n == 'get_flags':
             return self.gff.get_flags(op['id'], op['fl'])
+        # "leave this field alone" is said the way callers say it: in every second call by omitting the argument (the
+        # documented default), otherwise by passing None
+        omit = (op.get('id', 0) + op.get('note', 0) + sum(v for v in op.values() if isinstance(v, int))) % 2 == 0
+
+        def KW(**kw):
+            return {k: N(v) for k, v in kw.items() if not (omit and v < 0)}
         if n == 'set_note':
-            return self.sfx.set_note(op['id'], op['note'], pitch=N(op['p']), waveform=N(op['w']), volume=N(op['v']), effect=N(op['e']))
+            return self.sfx.set_note(op['id'], op['note'], **KW(pitch=op['p'], waveform=op['w'], volume=op['v'], effect=op['e']))
         if n == 'get_note':
             return list(self.sfx.get_note(op['id'], op['note']))
         if n == 'sfx_set_properties':
-            return self.sfx.set_properties(op['id'], editor_mode=N(op['m']), note_duration=N(op['d']), loop_start=N(op['ls']), loop_end=N(op['le']))
+            return self.sfx.set_properties(op['id'], **KW(editor_mode=op['m'], note_duration=op['d'], loop_start=op['ls'], loop_end=op['le']))
         if n == 'sfx_get_properties':
             return list(self.sfx.get_properties(op['id']))
         if n == 'set_channel':
@@ -145,7 +151,7 @@ class Cart:
             return -1 if r is None else r
         if n == 'music_set_properties':
             B = lambda v: None if v < 0 else bool(v)     # noqa
-            return self.music.set_properties(op['id'], begin=B(op['b']), end=B(op['e']), stop=B(op['s']))
+            return self.music.set_properties(op['id'], **{k: B(v) for k, v in (('begin', op['b']), ('end', op['e']), ('stop', op['s'])) if not (omit and v < 0)})
         if n == 'music_get_properties':
             return [int(bool(x)) for x in self.music.get_properties(op['id'])]
         raise core.MachineryError('unknown op %s' % n)
